@@ -245,6 +245,16 @@ def check_C01(tier, seed):
     viol, r = tables.judge(records)
     _table_report(v, records, viol, {"C01"}, ["kind", "size", "data", "algo", "cls", "cidTrue",
                                              "sizeTrue", "retrievedSame", "stream", "err"])
+    from . import tlc as _tlc
+    mcs = _tlc.run_tlc("MCStream", cfg_file="MCStream.cfg", workers=4)
+    if not mcs.ok:
+        v.machinery("MCStream failed: %s" % mcs.errors[:2])
+    nlogs, acc, rej = tables.judge_streams(records)
+    v.drift += nlogs - acc
+    for r_ in records:
+        r_.pop("streamlog", None)
+    v.coverage["stream_model"] = {"states": mcs.distinct, "stream_op_logs_validated": nlogs,
+                                  "accepted_by_model": acc, "rejected_samples": rej[:3]}
     v.coverage["size_kind_algorithm_records"] = len(records)
     v.coverage["samples"].append(records[0])
     v.coverage["checker_cmd"] += " ; tlc TraceTables (I_C01_Sweep)"
